@@ -22,6 +22,7 @@ NAV_FUNCS = [('sqlparse.sql.TokenList._token_matching', 'forward, end=None'),
              ('sqlparse.sql.TokenList._token_matching', 'reverse'),
              ('sqlparse.sql.TokenList.token_next', 'forward'), ('sqlparse.sql.TokenList.token_next', 'reverse (token_prev)'),
              ('sqlparse.sql.TokenList.token_index', None)]
+OFFSET_FUNCS = [('sqlparse.sql.TokenList.get_token_at_offset', 'body')]
 
 
 def code_text(node):
